@@ -447,4 +447,183 @@ def bmFromMapping (m : BMMap) : Except Err BM := do
     if hasVox then (match m.volume with | some (s, a) => (s, a) | none => (none, none)) else (none, none)
   bmMk st.name st.voxel st.vertex aff shp st.nv
 
+/-! ## to_mapping / from_index_mapping of Series, Scalar, Label and Parcels axes; label colours through the
+    XML text; `to_header` map sharing  (phase-3 extension)
+
+  XML contract (external, expat/ElementTree + CPython float repr): parse ∘ serialise is the identity on the
+  element tree; `float(str(v)) = v` for every finite float `v`; map names / label names / metadata without
+  leading or trailing whitespace come back unchanged.  Everything below is the Python-object logic on both
+  sides of that text. -/
+
+/-- generic `d[key e] = e` on an insertion-ordered dict kept as a list of entries -/
+def updSet {α κ} [DecidableEq κ] (key : α → κ) (t : List α) (e : α) : List α :=
+  if t.any (fun x => decide (key x = key e)) then t.map (fun x => if key x = key e then e else x) else t ++ [e]
+
+/-! ### SeriesAxis (cifti2_axes.py:1381-1417) -/
+
+structure SerMap where
+  exponent : Nat
+  start : Int
+  step : Int
+  npoints : Nat
+  unit : Nat
+  deriving Repr, DecidableEq, Inhabited
+
+/-- `SeriesAxis.to_mapping` (1399-1417): `series_exponent = 0` -/
+def seriesToMapping (a : Series) : SerMap := ⟨0, a.start, a.step, a.size, a.unit⟩
+/-- `SeriesAxis.from_index_mapping` (1381-1397): `start = series_start * 10 ** series_exponent` … -/
+def seriesFromMapping (m : SerMap) : Series :=
+  ⟨m.start * 10 ^ m.exponent, m.step * 10 ^ m.exponent, m.npoints, m.unit⟩
+
+/-! ### ScalarAxis (1102-1136) -/
+
+/-- one `Cifti2NamedMap`: map name, metadata (opaque id), label table (empty for scalar maps) -/
+structure LEntry where
+  key : Int
+  name : Nat
+  /-- RGBA as IEEE-754 binary64 bit patterns of the Python floats (opaque, except for ±0) -/
+  r : Nat
+  g : Nat
+  b : Nat
+  a : Nat
+  deriving Repr, DecidableEq, Inhabited
+
+abbrev LTable := List LEntry
+
+structure NMap where
+  name : Nat
+  mta : Nat
+  table : LTable
+  deriving Repr, DecidableEq, Inhabited
+
+/-- `ScalarAxis.to_mapping` (1121-1136) -/
+def scalarToMapping (a : Scalar) : List NMap := (a.name.zip a.mta).map (fun e => ⟨e.1, e.2, []⟩)
+/-- `ScalarAxis.from_index_mapping` (1102-1119) -/
+def scalarFromMapping (ms : List NMap) : Except Err Scalar := scalarMk (ms.map (·.name)) (ms.map (·.mta))
+
+/-! ### LabelAxis with explicit label tables (1237-1277) and `Cifti2Label` (cifti2.py:315-390) -/
+
+/-- bit pattern of `-0.0` -/
+def negZeroBits : Nat := 9223372036854775808
+
+/-- one colour component through `Cifti2Label._to_xml_element` (cifti2.py:385-388) and the parser
+    (`float(attrs['Red'])`, parse_cifti2.py:255-258): `'0' if val == 0 else '1' if val == 1 else str(val)`.
+    `val == 0` also holds for `-0.0`, which therefore comes back as `+0.0`; `'1'` parses to `1.0`; every other
+    value is written with `str` and (contract) parsed back to the same float. -/
+def colXml (c : Nat) : Nat := if c = negZeroBits then 0 else c
+
+/-- Python `==` on two finite floats given by their bit patterns -/
+def colEq (x y : Nat) : Bool := colXml x == colXml y
+
+def LEntry.xml (e : LEntry) : LEntry := { e with r := colXml e.r, g := colXml e.g, b := colXml e.b, a := colXml e.a }
+
+/-- `label_table[key] = …` for each entry in turn (`Cifti2LabelTable.__setitem__`, an OrderedDict;
+    also the dict comprehension of `from_index_mapping` and the parser's `lata.append(label)`) -/
+def ltBuild (es : List LEntry) : LTable := es.foldl (updSet (·.key)) []
+
+structure LabelR where
+  name : List Nat
+  table : List LTable
+  mta : List Nat
+  deriving Repr, DecidableEq, Inhabited
+
+def labelRMk (name : List Nat) (table : List LTable) (mta : List Nat) : Except Err LabelR :=
+  if mta.length = name.length ∧ table.length = name.length then .ok ⟨name, table, mta⟩ else .error .valueError
+
+/-- `LabelAxis.to_mapping` (1257-1277) -/
+def labelRToMapping (a : LabelR) : List NMap :=
+  (zip3 a.name a.table a.mta).map (fun e => ⟨e.1, e.2.2, ltBuild e.2.1⟩)
+
+/-- `LabelAxis.from_index_mapping` (1237-1255) -/
+def labelRFromMapping (ms : List NMap) : Except Err LabelR :=
+  labelRMk (ms.map (·.name)) (ms.map (fun m => ltBuild m.table)) (ms.map (·.mta))
+
+/-- the XML text in between (non-empty tables only: an empty `LabelTable` is not written at all) -/
+def nmapsXml (ms : List NMap) : List NMap :=
+  ms.map (fun m => { m with table := ltBuild (m.table.map LEntry.xml) })
+
+/-- header → XML → header for one label axis -/
+def labelRXrt (a : LabelR) : Except Err LabelR := labelRFromMapping (nmapsXml (labelRToMapping a))
+
+/-! ### ParcelsAxis with explicit voxel lists and vertex dicts (851-919) -/
+
+/-- `parcel.vertices`: structure id ↦ vertex indices (insertion-ordered dict) -/
+abbrev VDict := List (Nat × List Nat)
+
+structure ParcelsR where
+  name : List Nat
+  voxels : List (List Vox)
+  vertices : List VDict
+  affine : Option Nat
+  shape : Option Shape
+  nvertices : Dict
+  deriving Repr, DecidableEq, Inhabited
+
+def parcelsRMk (name : List Nat) (voxels : List (List Vox)) (vertices : List VDict) (aff : Option Nat)
+    (shp : Option Shape) (nv : Dict) : Except Err ParcelsR :=
+  if voxels.length = name.length ∧ vertices.length = name.length then .ok ⟨name, voxels, vertices, aff, shp, nv⟩
+  else .error .valueError
+
+/-- the `Cifti2MatrixIndicesMap` of a parcels axis: optional Volume (dimensions, affine), Surface elements
+    in order, Parcel elements (name, voxel indices, Vertices elements in order) -/
+structure PMap where
+  volume : Option (Option Shape × Nat)
+  surfaces : List (Nat × Nat)
+  parcels : List (Nat × List Vox × VDict)
+  deriving Repr, Inhabited
+
+/-- `ParcelsAxis.to_mapping` (895-919): a Volume only when the axis has an affine; one Surface for EVERY
+    entry of `nvertices` (used by a parcel or not); one Parcel per element -/
+def parcelsRToMapping (a : ParcelsR) : PMap :=
+  ⟨a.affine.map (fun f => (a.shape, f)), a.nvertices, zip3 a.name a.voxels a.vertices⟩
+
+/-- `nvertices[surface.brain_structure] = surface.surface_number_of_vertices` (877-879) -/
+def nvFromSurfaces (s : List (Nat × Nat)) : Dict := s.foldl (updSet (·.1)) []
+
+/-- the loop over `parcel.vertices` (885-892): a structure without Surface element is an error -/
+def vertsLoop (nv : Dict) (acc : VDict) : VDict → Except Err VDict
+  | [] => .ok acc
+  | e :: rest => if dictHas nv e.1 then vertsLoop nv (updSet (·.1) acc e) rest else .error .valueError
+
+def parcelsLoop (nv : Dict) : List (Nat × List Vox × VDict) → Except Err (List (Nat × List Vox × VDict))
+  | [] => .ok []
+  | p :: ps =>
+    match vertsLoop nv [] p.2.2 with
+    | .error e => .error e
+    | .ok vd =>
+      match parcelsLoop nv ps with
+      | .error e => .error e
+      | .ok r => .ok ((p.1, p.2.1, vd) :: r)
+
+/-- `ParcelsAxis.from_index_mapping` (851-893) -/
+def parcelsRFromMapping (m : PMap) : Except Err ParcelsR :=
+  let nv := nvFromSurfaces m.surfaces
+  match parcelsLoop nv m.parcels with
+  | .error e => .error e
+  | .ok ps =>
+    parcelsRMk (ps.map (·.1)) (ps.map (·.2.1)) (ps.map (·.2.2)) (m.volume.map (·.2)) (m.volume.bind (·.1)) nv
+
+/-! ### `to_header` (cifti2_axes.py:151-177) and `Cifti2Matrix.get_index_map` (cifti2.py:1238-1260) -/
+
+/-- the loop of `to_header`, generic in the axis type: `eq x y` is `x.__eq__(y)` — `ax in axes[:dim]` and
+    `axes.index(ax)` both evaluate `axes[j] == ax` for j = 0, 1, … .  State: `prev` = `axes[:dim]`,
+    `slots[j]` = position in the matrix of the map that describes dimension `j` (`mims_all`), `matrix` =
+    (AppliesToMatrixDimension, the axis whose `to_mapping` produced the map). -/
+def toHeaderGo {α} (eq : α → α → Bool) :
+    List α → List α → List Nat → List (List Nat × α) → List (List Nat × α)
+  | _, [], _, matrix => matrix
+  | prev, ax :: rest, slots, matrix =>
+    match prev.findIdx? (fun e => eq e ax) with
+    | some j =>
+      let k := slots.getD j 0
+      toHeaderGo eq (prev ++ [ax]) rest (slots ++ [k]) (matrix.modify k (fun m => (m.1 ++ [prev.length], m.2)))
+    | none => toHeaderGo eq (prev ++ [ax]) rest (slots ++ [matrix.length]) (matrix ++ [([prev.length], ax)])
+
+def toHeader {α} (eq : α → α → Bool) (axes : List α) : List (List Nat × α) := toHeaderGo eq [] axes [] []
+
+/-- `get_index_map(i)`: the first map whose AppliesToMatrixDimension contains `i` -/
+def getIndexMap {α} (matrix : List (List Nat × α)) (i : Nat) : Option α :=
+  (matrix.find? (fun m => m.1.contains i)).map (·.2)
+
+
 end Nb.C18
